@@ -68,8 +68,14 @@ pub fn string_upcase(vm: &mut Vm) -> Result<VCell, Error> {
 pub fn string_foldcase(vm: &mut Vm) -> Result<VCell, Error> {
     pop_argc(vm, 1, Some(1), "string-foldcase")?;
     let s = pop_string(vm, "string-foldcase")?;
-    let s = s.borrow().to_lowercase();
+    let s = foldcase(s.borrow().as_str());
     Ok(VCell::string(s))
+}
+
+/// Case folding is context free: every character is folded on its own (a
+/// whole-string lowercase conversion applies the final sigma rule).
+fn foldcase(s: &str) -> String {
+    s.chars().flat_map(|c| c.to_lowercase()).collect()
 }
 
 pub fn string_ref(vm: &mut Vm) -> Result<VCell, Error> {
@@ -324,31 +330,31 @@ pub fn string_gt_eq(vm: &mut Vm) -> Result<VCell, Error> {
 
 pub fn string_ci_eq(vm: &mut Vm) -> Result<VCell, Error> {
     string_comp(vm, "string-ci=?", |x, y| {
-        x.to_lowercase() == y.to_lowercase()
+        foldcase(x) == foldcase(y)
     })
 }
 
 pub fn string_ci_lt(vm: &mut Vm) -> Result<VCell, Error> {
     string_comp(vm, "string-ci<?", |x, y| {
-        x.to_lowercase() < y.to_lowercase()
+        foldcase(x) < foldcase(y)
     })
 }
 
 pub fn string_ci_gt(vm: &mut Vm) -> Result<VCell, Error> {
     string_comp(vm, "string-ci>?", |x, y| {
-        x.to_lowercase() > y.to_lowercase()
+        foldcase(x) > foldcase(y)
     })
 }
 
 pub fn string_ci_lt_eq(vm: &mut Vm) -> Result<VCell, Error> {
     string_comp(vm, "string-ci<=?", |x, y| {
-        x.to_lowercase() <= y.to_lowercase()
+        foldcase(x) <= foldcase(y)
     })
 }
 
 pub fn string_ci_gt_eq(vm: &mut Vm) -> Result<VCell, Error> {
     string_comp(vm, "string-ci>=?", |x, y| {
-        x.to_lowercase() >= y.to_lowercase()
+        foldcase(x) >= foldcase(y)
     })
 }
 
